@@ -98,7 +98,8 @@ def logic_ll(target=None):
     cmd = ['clang++'] + CXXFLAGS + ['-O0', '-g', '-fno-discard-value-names', '-fno-access-control',
                                       '-femit-all-decls', '-S', '-emit-llvm', src, '-o', out]
     if target:
-        cmd[1:1] = ['--target=' + target]
+        # cross target (AVR: 16-bit int and pointers): freestanding, with minimal libc declarations instead of the host's glibc
+        cmd[1:1] = ['--target=' + target, '-ffreestanding', '-I' + os.path.join(STUBS, 'avrlibc'), '-Wno-avr-rtlib-linking-quirks']
     r = subprocess.run(cmd, capture_output=True, text=True)
     if r.returncode != 0:
         raise RuntimeError('clang failed on the real sources:\n' + r.stderr[-4000:])
